@@ -61,6 +61,11 @@ def gen_ops(tier, rng):
         enc("default", "-", 4, 2, size, "enc-big")
         enc("cauchy", "g=8,ms=1024", 11, 3, size if size < (4 << 20) else (1 << 20) + 65, "enc-big")
     enc("xor", "-", 7, 1, 1000, "enc-xor")
+    # per-slice fallback region: more than 10 inputs or outputs, minSplitSize < size < 256 (goroutine pieces of 128..255 bytes)
+    for o in ["ms=128", "ms=64,g=4", "ms=1", "ms=128,gfni-,avxgfni-", "ms=130,avx512-"]:
+        for (d, p) in [(11, 2), (12, 4), (3, 11), (11, 13), (1, 2), (2, 1)]:
+            for size in [129, 160, 200, 255, 256, 300]:
+                enc(rng.choice(["default", "cauchy"]), o, d, p, size, "enc-fallback")
     return ops
 
 
